@@ -150,6 +150,12 @@ var catalogue = []Mutant{
 	{ID: "zip-follow-minus-one", Rules: []string{"R19.5"}, Note: "a search that found nothing is followed", Edits: []Edit{{"internal/magic/zip.go", "\t\tif nextHeader == -1 {\n\t\t\treturn false\n\t\t}\n", ""}}},
 	{ID: "zip-loop-dead", Rules: []string{"R19.5"}, Note: "looped entries never reached", Edits: []Edit{{"internal/magic/zip.go", "\t\tif nextHeader == -1 {", "\t\tif nextHeader != -1 {"}}},
 	{ID: "ndjson-count-from-one", Rules: []string{"R13.3"}, Note: "line counter starts at 1", Edits: []Edit{{"internal/magic/text.go", "lCount, objOrArr := 0, 0", "lCount, objOrArr := 1, 0"}}},
+	{ID: "ancestor-loop-negated", Rules: []string{"R03.3"}, Note: "ancestor loop runs while p == nil", Edits: []Edit{{"mime.go", "for p := m.Parent(); p != nil; p = p.Parent() {", "for p := m.Parent(); p == nil; p = p.Parent() {"}}},
+	{ID: "extend-keeps-lock", Rules: []string{"R06.2"}, Note: "Extend returns with the write lock held", Edits: []Edit{{"mime.go", "\tm.children = append([]*MIME{c}, m.children...)\n\tmu.Unlock()\n", "\tm.children = append([]*MIME{c}, m.children...)\n"}}},
+	{ID: "detect-keeps-rlock", Rules: []string{"R06.2"}, Note: "Detect never releases the read lock", Edits: []Edit{{"mimetype.go", "\tmu.RLock()\n\tdefer mu.RUnlock()\n\treturn root.match(in, l)\n}", "\tmu.RLock()\n\treturn root.match(in, l)\n}"}}},
+	{ID: "colon-test-removed", Rules: []string{"R09.3"}, Note: "object scanner no longer requires ':' after the key", Edits: []Edit{{"internal/json/parser.go", "\t\tif b[n] != ':' {\n\t\t\treturn 0\n\t\t} else {\n\t\t\tn += 1\n\t\t\tp.ib++\n\t\t}\n", "\t\tn += 1\n\t\tp.ib++\n"}}},
+	{ID: "clone-drops-params", Rules: []string{"R02.2"}, Note: "clone never formats the parameters into the type string", Edits: []Edit{{"mime.go", "\t\tclonedMIME = mime.FormatMediaType(m.mime, ps)\n", "\t\t_ = ps\n"}}},
+	{ID: "xml-no-fallback", Rules: []string{"R12.10"}, Note: "FromXML returns the empty answer instead of falling back", Edits: []Edit{{"internal/charset/charset.go", "if cset := fromXML(content); cset != \"\" {", "if cset := fromXML(content); true {"}}},
 	{ID: "setlimit-noop", Rules: []string{"R04.1"}, Note: "SetLimit stores nothing", Edits: []Edit{{"mimetype.go", "\tatomic.StoreUint32(&readLimit, limit)\n", "\t_ = limit\n"}}},
 }
 
